@@ -2,6 +2,7 @@ import Nstd.Rc.Lemmas
 import Nstd.Rc.Total
 import Nstd.Rc.Stale
 import Nstd.Rc.Frame
+import Nstd.Rc.PtrTotal
 /-
   Property C09: shared payloads are released exactly once, after their last handle.
 
@@ -319,12 +320,46 @@ theorem mt_quiescent_no_leak {n : Nat} {s : St} (h : Reach n s) (hq : ∀ t, s.p
     rw [hq t] at hf; cases hf
   · omega
 
+/-- RefCount::Ptr too: every history of String / Variant / Xml::Variant calls and of the Ptr calls `d = new Obj`,
+    copy construction, `operator=`, `d = Ptr()`, `swap` (objects without a `next` handle) on the 16 variables
+    runs to the end: none of these calls is rejected, so `ref_counts_handles`, `freed_once_after_last` and
+    `no_inplace_write_while_shared` are not vacuous for any such history -/
+theorem apiRun_total_noNext {n : Nat} (ops : List ApiOp) (hn : nSlots ≤ n)
+    (hops : ∀ op, op ∈ ops → (flatOp op = true ∨ ptrOp op = true) ∧ idxOk op) : ∃ s, apiRun (init n) 0 ops = some s := by
+  obtain ⟨s, h, _⟩ := apiRun_total_noNext_aux (tid := 0) (mine := mineAll) ops (noEmb_init n) (conc_init n) hn
+    (by decide) (by decide) (by decide)
+    (fun op ho => ⟨(hops op ho).1, (hops op ho).2, idxMine_all op (hops op ho).2⟩)
+  exact ⟨s, h⟩
+
 /-
-  OPEN: `apiRun_total` for the RefCount::Ptr calls pNew / pCopy / pAssign / pClear / pLink / pNext / pNextOf
-  (their step lists walk through embedded handles and depend on the object graph; they additionally need
-  fewer than `maxBlocks` allocations and non-null `d` for `d->next`).  In the correspondence runs a rejected
-  call would show up as `bad-op` against the implementation's observation; none occurred.
+  OPEN: totality for the calls that create or walk `next` handles (`pLink`, `pNext`, `pNextOf`, and the other Ptr
+  calls once a `next` handle exists): their step lists depend on the object graph, need fewer than `maxBlocks`
+  allocations (`init nTotal`) and a non-null `d` for `d->next`.  The examples below run such histories; in the
+  correspondence runs a rejected call would show up as `bad-op` against the implementation's observation.
 -/
+
+/-- `next` handles on the proper initial state `init nTotal`: a chain of three nodes, a walk with `d = d->next`
+    that releases the nodes behind it, and the final release: every node released exactly once -/
+example : ∃ s, apiRun (init nTotal) 0
+    [.pNew 0 1, .pNew 1 2, .pNew 2 3, .pLink 1 2, .pLink 0 1, .pClear 1, .pClear 2, .pNext 0, .pNext 0, .pNext 0] = some s
+    ∧ s.freed 0 = 1 ∧ s.freed 1 = 1 ∧ s.freed 2 = 1 ∧ s.viol = 0 ∧ s.slots 0 = .none := by
+  refine ⟨_, rfl, ?_⟩
+  decide
+
+/-- a two-node cycle stays alive when the variables go (counted handles), a self-assignment changes nothing -/
+example : ∃ s, apiRun (init nTotal) 0
+    [.pNew 0 1, .pNew 1 2, .pLink 0 1, .pLink 1 0, .pAssign 0 0, .pClear 0, .pClear 1] = some s
+    ∧ s.freed 0 = 0 ∧ s.freed 1 = 0 ∧ (s.heap 0).map (·.ref) = some 1 ∧ (s.heap 1).map (·.ref) = some 1 ∧ s.viol = 0 := by
+  refine ⟨_, rfl, ?_⟩
+  decide
+
+/-- without `next` handles the Ptr calls are covered by `apiRun_total_noNext`; one concrete history -/
+example : ∃ s, apiRun (init nSlots) 0 [.pNew 12 1, .pCopy 13 12, .pAssign 14 13, .pSwap 12 14, .pClear 12, .pClear 13, .pClear 14] = some s
+    ∧ s.freed 0 = 1 ∧ s.viol = 0 := by
+  refine ⟨_, rfl, ?_⟩
+  decide
+
+
 
 /-! ### no use of a handle after its reference was dropped
     (`dec` forgets the pointer in the model; `Stale.lean` instruments the step sequences with the pointer that
